@@ -55,7 +55,8 @@ type opTransport struct {
 
 func (t opTransport) RoundTrip(r *http.Request) (*http.Response, error) {
 	rec := httptest.NewRecorder()
-	t.w.h.ServeHTTP(rec, r)
+	// the provider's request context is its own: a client-side deadline does not travel over the wire
+	t.w.h.ServeHTTP(rec, r.WithContext(context.WithoutCancel(r.Context())))
 	if strings.HasSuffix(r.URL.Path, "/oauth/token") {
 		t.w.mu.Lock()
 		t.w.tokenReqs++
